@@ -1,6 +1,7 @@
 package gofe
 
 import (
+	"go/types"
 	"strings"
 
 	"github.com/goplus/llgo/zz_verif_symx/core"
@@ -64,7 +65,37 @@ func registerIntrinsics(x *Exec) {
 		return dst
 	}
 	in[pClite+"Advance"] = func(x *Exec, fr *frame, args []Value, _ *ssa.CallCommon) Value {
-		return smt.Add(t(args[0]), t(args[1]))
+		// llgo.advance(p, n) = p + n*sizeof(*p); bytes for unsafe.Pointer
+		scale := uint64(1)
+		var nt types.Type
+		if f := x.intrinsicFn; f != nil && f.Signature.Params().Len() == 2 {
+			if pt, ok := f.Signature.Params().At(0).Type().Underlying().(*types.Pointer); ok {
+				scale = uint64(x.L.Of(pt.Elem()).Size)
+			}
+			nt = f.Signature.Params().At(1).Type()
+		}
+		n := t(args[1])
+		if nt != nil {
+			n = smt.Resize(n, 64, isSigned(nt))
+		} else {
+			n = smt.Resize(n, 64, true)
+		}
+		return smt.Add(t(args[0]), smt.Mul(n, c64(scale)))
+	}
+	in[pClite+"Str"] = func(x *Exec, fr *frame, args []Value, _ *ssa.CallCommon) Value {
+		// llgo.cstr: a NUL-terminated copy of a constant string
+		s := args[0].(Agg)
+		l := t(s[1])
+		if !l.IsConst() {
+			x.unsupported("clite.Str of a non-constant string")
+		}
+		n := int(l.Uint())
+		a := x.M.Mem.Alloc(n+1, "cstr")
+		if n > 0 {
+			bs := x.M.Mem.LoadRaw(t(s[0]), n, &x.hooks, "cstr")
+			copy(a.Bytes, bs)
+		}
+		return a.Ptr()
 	}
 	in[pClite+"Strlen"] = func(x *Exec, fr *frame, args []Value, _ *ssa.CallCommon) Value {
 		p := t(args[0])
@@ -152,6 +183,14 @@ func registerIntrinsics(x *Exec) {
 		x.Stubs["os.ReadFile -> error (no such file)"] = true
 		x.events = append(x.events, Event{Kind: "ReadFile", Args: []Value{args[0]}})
 		return Agg{Agg{c64(0), c64(0), c64(0)}, x.opaqueIface("os.ReadFile:ENOENT")}
+	}
+	// pthread mutexes without a scheduler: single-threaded, no-ops
+	const pSync = "github.com/goplus/llgo/runtime/internal/clite/pthread/sync."
+	for _, n := range []string{"(*" + pSync + "Mutex).Init", "(*" + pSync + "Mutex).Lock", "(*" + pSync + "Mutex).Unlock", "(*" + pSync + "Mutex).Destroy",
+		"(*" + pSync + "Once).Do"} {
+		if _, ok := in[n]; !ok {
+			in[n] = noop
+		}
 	}
 	in["fmt.Errorf"] = func(x *Exec, fr *frame, args []Value, _ *ssa.CallCommon) Value {
 		x.Stubs["fmt.Errorf -> opaque non-nil error"] = true
